@@ -812,7 +812,7 @@ fn act_peer_connect(task: *const TTask, id: u32) {
 }
 fn f_c07_alloc_race(when: usize) {
     let mut ep = endpoint(small_options(), KRng::fixed([ID_C, ID_C + 1, 3, 4]));
-    *SCHED_TARGET.lock().unwrap() = Some(SchedTarget { data: core::ptr::null(), kind: 2, n: ID_C, task: &ep.task as *const TTask, task_fn: Some(act_peer_connect) });
+    *SCHED_TARGET.lock().unwrap() = Some(SchedTarget { data: core::ptr::null(), kind: 2, n: ID_C, task: &ep.task as *const TTask, task_fn: Some(act_peer_connect), stream: core::ptr::null_mut(), writer_fn: None });
     SCHED_FIRE_AT.store(when, Ordering::Relaxed);
     tracing::sched::set_hook(verif_sched_point);
     tracing::sched::arm();
